@@ -117,11 +117,25 @@ theorem linX_ringA (cfg : Cfg) (t : Tid) (x y : St) (h : LinX cfg t x y) :
   unfold absRing
   simp only [hp, hc, hd]
 
+/-- the last `isDone` test of `waitForWriteSpace(l)`, passed, IS `RingA.waitSpace … l = ok` — exactly, on the ring as it is -/
+theorem linW_ringA (cfg : Cfg) (l : Nat) (x y : St) (hcp : x.sh.cseq ≤ x.sh.pseq) (h : LinW cfg l x y) :
+    RingA.waitSpace (ringCfg cfg) (absRing x) l = some (.ok, absRing x) ∧ absRing y = absRing x := by
+  obtain ⟨_, hd, hg, hp, hc, hdn⟩ := h
+  refine ⟨ra_waitSpace_ok (ringCfg cfg) _ l hd ?_, absRing_ext x y (by rw [hp, hc]) hdn⟩
+  simp only [absRing_buf, ringCfg_cap]; omega
+
+/-- the load of the producer cursor after `done` was seen, finding too little, IS `RingA.waitData … = eof` — exactly -/
+theorem linE_ringA (cfg : Cfg) (nd : Nat) (x y : St) (hnd : nd ≤ cfg.size) (h : LinE cfg nd x y) :
+    RingA.waitData (ringCfg cfg) (absRing x) nd = some (.eof, absRing x) ∧ absRing y = absRing x := by
+  obtain ⟨_, hd, hlt, hp, hc, hdn⟩ := h
+  exact ⟨ra_waitData_eof (ringCfg cfg) rfl _ nd hnd (by simpa using hlt) hd, absRing_ext x y (by rw [hp, hc]) hdn⟩
+
 /-! ### `ReadFrom`: what holds at its program counters -/
 
 /-- the argument of `waitForWriteSpace` at its program counters -/
 def wfsArg : Pc → Option Nat
-  | .s30 n | .s31 n | .s32 n _ | .s33 n _ | .s34 n _ | .s35 n _ | .s36 n _ | .s36w n _ | .s37 n _ | .s38 n _ _ => some n
+  | .s30 n | .s31 n | .s32 n _ | .s33 n _ | .s34 n _ | .s35 n _ | .s36 n _ | .s36w n _ | .s37 n _ | .s38 n _ _
+  | .s39 n _ => some n
   | _ => none
 
 /-- inside the `WriteCommit(n)` that `ReadFrom` calls the `n` bytes fit: `buf + n ≤ cap`, before and at the
@@ -147,6 +161,7 @@ theorem rfcommit_fits (cfg : Cfg) (base : Nat) (s : St) (h : RInv cfg base s) (t
       | exact key (hp.2.2.1 tot ms hcur)
       | exact key (hp.2.1.2.1 tot ms hcur)
       | exact key (hp.2.2.2.2.2.1 tot ms hcur)
+      | exact key (hp.2.2.2.1 tot ms hcur)
       | exact absurd hcur (hp.2.2 tot ms))
   · rw [hc] at hp
     exact key hp.2
